@@ -157,16 +157,15 @@ def IntOp.pre (t : IntTy) (π : Policy) (op : IntOp) (a : Operands) : Bool :=
   let opposite (u v : Ext Int) : Bool := (u == .minf && v == .pinf) || (u == .pinf && v == .minf)
   let same (u v : Ext Int) : Bool := (u == .minf && v == .minf) || (u == .pinf && v == .pinf)
   let finZero (v : Ext Int) : Bool := v == .fin 0
-  let isFin (v : Ext Int) : Bool := match v with | .fin _ => true | _ => false
   match op with
   | .assign f _ => decide (f.cmin ≤ a.x) && decide (a.x ≤ f.cmax) && inR a.to0
   | .neg | .abs => inR a.x && inR a.to0
   | .add => inR a.x && inR a.y && inR a.to0 && (π.checkInfAddInf || !opposite x y)
   | .sub => inR a.x && inR a.y && inR a.to0 && (π.checkInfSubInf || !same x y)
   | .mul => inR a.x && inR a.y && inR a.to0
-  | .div | .idiv => inR a.x && inR a.y && inR a.to0 && (π.checkDivZero || !(finZero y && isFin x))
+  | .div | .idiv => inR a.x && inR a.y && inR a.to0 && (π.checkDivZero || !(finZero y && x.isFin))
                     && (π.checkInfDivInf || !(x.isInf && y.isInf))
-  | .rem => inR a.x && inR a.y && inR a.to0 && (π.checkDivZero || !(finZero y && isFin x)) && (π.checkInfMod || !x.isInf)
+  | .rem => inR a.x && inR a.y && inR a.to0 && (π.checkDivZero || !(finZero y && x.isFin)) && (π.checkInfMod || !x.isInf)
   | .addMul => inR a.x && inR a.y && inR a.to0 && (π.checkInfAddInf || !opposite z (Ext.mulI x y))
   | .subMul => inR a.x && inR a.y && inR a.to0 && (π.checkInfSubInf || !same z (Ext.mulI x y))
   | .add2exp | .sub2exp | .mul2exp | .div2exp => inR a.x && inR a.to0 && (π.checkOverflow || decide (a.e < t.bits))
@@ -214,5 +213,29 @@ a stored value is always a bit pattern of the type (no wrap) -/
 def storedOK (t : IntTy) (π : Policy) (stored : Int) (r : Result) : Bool :=
   decide (t.cmin ≤ stored) && decide (stored ≤ t.cmax) &&
   (!(r.cls == .nan && π.hasNan) || t.isNan π stored)
+
+/-! ## the concrete types of this platform and the policies of the library (witnesses, examples;
+the driver reads the actual constants from the harness's `cfg` lines) -/
+namespace IntTy
+def i8 : IntTy := { bits := 8, signed := true, useNeg := true, useAdd := true, useSub := true, useMul := true, lbits := 64 }
+def u8 : IntTy := { bits := 8, signed := false, useNeg := true, useAdd := true, useSub := true, useMul := true, lbits := 64 }
+def i32 : IntTy := { bits := 32, signed := true, useNeg := true, useAdd := true, useSub := true, useMul := true, lbits := 64 }
+def i64 : IntTy := { bits := 64, signed := true, lbits := 64 }
+def u64 : IntTy := { bits := 64, signed := false, lbits := 64 }
+end IntTy
+namespace Policy
+/-- `Check_Overflow_Policy<T>` and `Bounded_Integer_Coefficient_Policy` for an integer `T` -/
+def checkOverflowOnly : Policy :=
+  { checkOverflow := true, checkInfAddInf := false, checkInfSubInf := false, checkInfMulZero := false,
+    checkDivZero := false, checkInfDivInf := false, checkInfMod := false, checkSqrtNeg := false,
+    hasNan := false, hasInfinity := false }
+/-- `Extended_Number_Policy` and `WRD_Extended_Number_Policy` -/
+def extended : Policy := { checkOverflowOnly with hasNan := true, hasInfinity := true }
+/-- `Debug_WRD_Extended_Number_Policy` -/
+def debugExtended : Policy :=
+  { checkOverflow := true, checkInfAddInf := true, checkInfSubInf := true, checkInfMulZero := true,
+    checkDivZero := true, checkInfDivInf := true, checkInfMod := true, checkSqrtNeg := true,
+    hasNan := true, hasInfinity := true }
+end Policy
 
 end PPLV.Checked
